@@ -58,3 +58,45 @@ mod proofs {
         signed_area_widening_body::<f64, _>(&mut KaniSrc);
     }
 }
+
+// ---- NextAfter (C10 mechanism "one-ulp bump of a division point via NextAfter") --------------------------------------------------
+// For every finite value of both float types `nextafter(true)` is the next representable value above and
+// `nextafter(false)` the next one below (stated on the bit patterns, so independent of the implementation).
+macro_rules! nextafter_body {
+    ($name:ident, $f:ty, $u:ty, $src:ident) => {
+        pub fn $name<S: Src>(s: &mut S) {
+            use super::super::helper::NextAfter;
+            let x: $f = s.$src();
+            s.assume(x.is_finite());
+            let up = x.nextafter(true);
+            let dn = x.nextafter(false);
+            let b = x.to_bits();
+            let sign: $u = 1 << (<$u>::BITS - 1);
+            vcover!(x < 0.0, "negative");
+            vcover!(x == 0.0, "zero");
+            // expected successor / predecessor on bit patterns (sign-magnitude encoding)
+            let exp_up: $u = if x == 0.0 { 1 } else if x > 0.0 { b + 1 } else { b - 1 };
+            let exp_dn: $u = if x == 0.0 { sign | 1 } else if x > 0.0 { b - 1 } else { b + 1 };
+            assert!(up.to_bits() == exp_up, "C10: nextafter(true) is the next representable value above");
+            assert!(dn.to_bits() == exp_dn, "C10: nextafter(false) is the next representable value below");
+            assert!(up > x && dn < x, "C10: one ulp up is larger, one ulp down is smaller");
+        }
+    };
+}
+nextafter_body!(nextafter_successor_f32_body, f32, u32, f32);
+nextafter_body!(nextafter_successor_f64_body, f64, u64, f64);
+
+#[cfg(kani)]
+mod proofs_nextafter {
+    use super::*;
+
+    #[kani::proof]
+    fn nextafter_successor_f32() {
+        nextafter_successor_f32_body(&mut KaniSrc);
+    }
+
+    #[kani::proof]
+    fn nextafter_successor_f64() {
+        nextafter_successor_f64_body(&mut KaniSrc);
+    }
+}
